@@ -576,6 +576,40 @@ func dischargeBounds(c *Ctx, fn *ssa.Function, in ssa.Instruction) (string, stri
 				if a := atom("(" + sym(cl) + " < 0)"); a != nil && holds(pa.Not(a)) {
 					return "G3 (index returned by strings.Index* on the same string, under i ≥ 0)", ""
 				}
+				// G12: the separator is known to occur: a dominating strings.Count(s, sep) == k (k ≥ 1) or
+				// strings.Contains(s, sep) on the same string and separator
+				sepOf := func(v ssa.Value) (string, bool) {
+					if k, ok := constString(v); ok {
+						return k, true
+					}
+					if k, ok := v.(*ssa.Const); ok && k.Value != nil {
+						if bt, ok := k.Type().Underlying().(*types.Basic); ok && bt.Info()&types.IsInteger != 0 {
+							return string(rune(k.Int64())), true
+						}
+					}
+					return "", false
+				}
+				if want, ok := sepOf(cl.Common().Args[1]); ok && want != "" {
+					for i, at := range A.Atoms {
+						var cnt *ssa.Call
+						switch at.Kind {
+						case "eq":
+							if k, isC := at.Y.(*ssa.Const); isC && k.Value != nil && !k.IsNil() {
+								if bt, ok := k.Type().Underlying().(*types.Basic); ok && bt.Info()&types.IsInteger != 0 && k.Int64() >= 1 {
+									cnt = isCallTo(at.X, "strings.Count")
+								}
+							}
+						case "val":
+							cnt = isCallTo(at.X, "strings.Contains")
+						}
+						if cnt == nil || sym(cnt.Common().Args[0]) != sym(base) {
+							continue
+						}
+						if got, ok := sepOf(cnt.Common().Args[1]); ok && got == want && holds(pa.AtomF(i)) {
+							return "G12 (index returned by strings.Index* on the same string, whose separator is known to occur: a dominating Count/Contains test)", ""
+						}
+					}
+				}
 				return "", "index from strings.Index* used without the i ≥ 0 test"
 			}
 		}
